@@ -53,7 +53,7 @@ func TestCheck(t *testing.T) {
 	budget := runner.Pick(r, 70*time.Second, 13*time.Minute) / time.Duration(waves)
 	if ji, ok := runner.Job(); ok {
 		spec := qcheck.LockSpec{Name: "c13", Cfg: cfgs[ji/shards], Alpha: alpha(r), Depth: runner.Pick(r, 4, 5), Workers: 3,
-			RootShard: ji % shards, RootShards: shards,
+			RootShard: ji % shards, RootShards: shards, ScaleCompaction: true,
 			MaxTrans: runner.Pick(r, int64(2_000_000), int64(30_000_000)), Deadline: time.Now().Add(budget)}
 		res := qcheck.RunLockstep(spec)
 		qcheck.ReportLockstep(r, spec, res)
@@ -61,6 +61,7 @@ func TestCheck(t *testing.T) {
 	}
 	r.RunJobs(njobs, par, budget+2*time.Minute)
 	r.Assume("Postgres backend not executed (no server in the sandbox): the equivalence decided is memory vs SQLite")
+	r.Assume("the memory store's order-list compaction thresholds (1024 entries, factor 4) are lowered to 2 and 1 through a build-overlay variable so that compactions happen inside the explored histories (they must be unobservable)")
 	r.Assume("clock steps are >= 1 s, so the documented 10 ms lease-sweep granularity of SQLite (C05) is not part of the comparison")
 	r.Assume("arguments are those the Store's callers can construct (lease ids without surrounding blanks on single-id calls, non-blank dead reasons, State unset on enqueue)")
 	r.Set("rule", "every operation sequence over the alphabet up to the depth, applied to MemoryStore and SQLiteStore in lock step on one clock; compared: error class, counts, item sets with all fields modulo lease-id renaming, conflict multisets, stats, and the full contents after every step; non-trivial = distinct (operation kind, result class) pairs; the subtrees below the first operation are dealt to separate processes, states are de-duplicated per process (the summed state count may count a state once per shard)")
